@@ -530,6 +530,14 @@ static void case_frames(long idx, Rng& r) {
         if (e.v == MUST_TRUE) { cnt("positive:" + e.cipher + "/" + e.shape); if (e.plain != g.plain.bytes) { viol("harness/reference-plaintext", "reference round trip failed"); continue; } }
         Opt o = pick_opt(r);
         int res = cipher == 0 ? go("wep", wep, e, g.frame, "positive " + g.what, o) : go("wpa2", wpa, e, g.frame, "positive " + g.what, o);
+        // keys supplied AFTER the decrypter has already seen (and could not open) traffic of the pair: the very next frame must open
+        if (cipher != 0 && e.v == MUST_TRUE && r.chance(1, 4)) {
+            Crypto::WPA2Decrypter late; Model m0; Expect e0 = expect_wpa(m0, g.frame, &g.plain);
+            for (u32 k = 1 + r.below(3); k--;) go("wpa2", late, e0, g.frame, "late-key: before the key is supplied, " + g.what, o);
+            late.add_decryption_keys(r.chance(1, 2) ? std::make_pair(hw(ap), hw(s.mac)) : std::make_pair(hw(s.mac), hw(ap)), Crypto::WPA2::SessionKeys(s.key.ptk, s.key.ccmp));
+            Model m1; m1.wpa[mkpair(ap, s.mac)] = s.key; Expect e1 = expect_wpa(m1, g.frame, &g.plain);
+            go("wpa2", late, e1, g.frame, "late-key: right after add_decryption_keys, " + g.what, o); cnt("late-key-scenarios");
+        }
         if (res == 1 && r.chance(1, 4)) { cipher == 0 ? go("wep", wep, e, g.frame, "positive-again " + g.what) : go("wpa2", wpa, e, g.frame, "positive-again " + g.what); cnt("positive:repeated"); }
         // negatives derived from this frame
         int nneg = 3;
